@@ -36,6 +36,14 @@ class Adapter(EnvAdapter):
             d.update(kw)
             return d
 
+        def inj(id, limit, grid, pen=0.0):
+            # INJ: reachable states of the 3x3 TLC model (2 agents, 1 food, mid-episode states included) as start
+            # states of the real environment, every joint action from each
+            d = c(id, 3, 2, 1, 1, 100, 1, 1, coop=False, pen=pen, grid=grid)
+            d.update(inject=("MC_LBF", "MC_LBF_dump.cfg"), limit=limit, post_terminal=0, probe_cap=36,
+                     policies=["random"], props=["C03", "C04", "C05", "C07", "C09", "C12"])
+            return d
+
         if tier == "quick":
             return [
                 dict(id="default", ctor=dict(default=True, grid_size=8, num_agents=2, num_food=2, fov=8,
@@ -51,9 +59,11 @@ class Adapter(EnvAdapter):
                 c("g7a4f2_fov2_raw", 7, 4, 2, 2, 100, 3, 60, coop=True, norm=False, lvl=3, probe_every=4, probe_cap=36,
                   policies=["forage", "crowd"]),
                 c("g7a4f2_t7", 7, 4, 2, 2, 7, 3, 10, coop=False, probe_every=2, probe_cap=36),
-                c("g10a3f3_fov3_grid", 10, 3, 3, 3, 100, 3, 70, grid=True, probe_every=5, probe_cap=30,
+                c("g10a3f3_fov3_grid", 10, 3, 3, 3, 100, 3, 70, grid=True, probe_every=7, probe_cap=30,
                   policies=["forage", "crowd"]),
                 c("g8a2f2_grid_t7", 8, 2, 2, 8, 7, 2, 10, grid=True, pen=0.5, probe_cap=10),
+                inj("inj3_vec", 40, grid=False),
+                inj("inj3_grid", 20, grid=True, pen=0.5),
             ]
         out = []
         out.append(dict(id="default", ctor=dict(default=True, grid_size=8, num_agents=2, num_food=2, fov=8,
@@ -79,6 +89,8 @@ class Adapter(EnvAdapter):
             out.append(c(f"g6a2f1_grid_t{t}", 6, 2, 1, 2, t, ne, ms, grid=True, probe_every=pe))
             out.append(c(f"g8a2f2_grid_t{t}", 8, 2, 2, 8, t, 3, ms, grid=True, probe_every=pe + 2, probe_cap=18))
             out.append(c(f"g8a2f2_fov1_t{t}", 8, 2, 2, 1, t, ne, ms, coop=False, probe_every=pe))
+        out.append(inj("inj3_vec", 900, grid=False))
+        out.append(inj("inj3_grid", 600, grid=True, pen=0.5))
         return out
 
     def make(self, cfg):
@@ -88,11 +100,68 @@ class Adapter(EnvAdapter):
         k = cfg["ctor"]
         if k.get("default"):
             return LevelBasedForaging()          # the registered defaults (time_limit 100 in the constructor)
+        if "inject" in cfg:
+            gen = self._table_generator(cfg)
+            return LevelBasedForaging(generator=gen, time_limit=k["time_limit"],
+                                      grid_observation=k["grid_observation"],
+                                      normalize_reward=k["normalize_reward"], penalty=k["penalty"])
         gen = RandomGenerator(grid_size=k["grid_size"], fov=k["fov"], num_agents=k["num_agents"],
                               num_food=k["num_food"], max_agent_level=k["max_agent_level"],
                               force_coop=k["force_coop"])
         return LevelBasedForaging(generator=gen, time_limit=k["time_limit"], grid_observation=k["grid_observation"],
                                   normalize_reward=k["normalize_reward"], penalty=k["penalty"])
+
+    def _table_generator(self, cfg):
+        """A generator whose `__call__(key)` returns state number key[1] of the TLC dump (reset, step, mask and
+        observer code stay the real ones)."""
+        import jax.numpy as jnp
+
+        from harness import inject
+        from jumanji.environments.routing.lbf.generator import RandomGenerator
+        from jumanji.environments.routing.lbf.types import Agent, Food, State
+
+        k = cfg["ctor"]
+        states, _ = inject.dump_states(cfg["inject"][0], cfg["inject"][1], limit=None)
+        states = sorted(states, key=repr)
+        if cfg.get("limit") and len(states) > cfg["limit"]:
+            step = len(states) / cfg["limit"]
+            states = [states[int(j * step)] for j in range(cfg["limit"])]
+        cfg["episodes"] = len(states)
+        col = lambda f, dt: jnp.asarray(np.array([f(s) for s in states], dtype=dt))
+        tab = dict(apos=col(lambda s: s["agents"]["position"], np.int32),
+                   alvl=col(lambda s: s["agents"]["level"], np.int32),
+                   aload=col(lambda s: s["agents"]["loading"], bool),
+                   fpos=col(lambda s: s["food_items"]["position"], np.int32),
+                   flvl=col(lambda s: s["food_items"]["level"], np.int32),
+                   eaten=col(lambda s: s["food_items"]["eaten"], bool),
+                   sc=col(lambda s: s["step_count"], np.int32))
+        n = len(states)
+
+        class TableGenerator(RandomGenerator):
+            def __init__(self):      # RandomGenerator.__init__ refuses grids below 5 x 5; the TLC model is 3 x 3
+                self.grid_size = k["grid_size"]
+                self.fov = k["fov"]
+                self.num_agents = k["num_agents"]
+                self.num_food = k["num_food"]
+                self.max_agent_level = k["max_agent_level"]
+                self.force_coop = k["force_coop"]
+
+            def __call__(self, key):
+                j = key[1] % n
+                agents = Agent(id=jnp.arange(self.num_agents, dtype=jnp.int32), position=tab["apos"][j],
+                               level=tab["alvl"][j], loading=tab["aload"][j])
+                food = Food(id=jnp.arange(self.num_food, dtype=jnp.int32), position=tab["fpos"][j],
+                            level=tab["flvl"][j], eaten=tab["eaten"][j])
+                return State(key=key, step_count=tab["sc"][j], agents=agents, food_items=food)
+
+        return TableGenerator()
+
+    def episode_key(self, cfg, ep, seed):
+        if "inject" not in cfg:
+            return None
+        import jax.numpy as jnp
+
+        return jnp.asarray([0, ep], dtype=jnp.uint32)
 
     def cfg_record(self, cfg, env):
         k = cfg["ctor"]
@@ -101,7 +170,7 @@ class Adapter(EnvAdapter):
                     max_agent_level=k["max_agent_level"], force_coop=bool(k["force_coop"]),
                     time_limit=k["time_limit"], grid_observation=bool(k["grid_observation"]),
                     normalize_reward=bool(k["normalize_reward"]),
-                    penalty_num=pen.numerator, penalty_den=pen.denominator)
+                    penalty_num=pen.numerator, penalty_den=pen.denominator, injected="inject" in cfg)
 
     # ---- helpers on the concrete state ----------------------------------------------------
     @staticmethod
